@@ -214,6 +214,180 @@ def t_inline(tree: ast.AST) -> int:
     return count[0]
 
 
+_FLIP = {ast.Lt: ast.Gt, ast.Gt: ast.Lt, ast.LtE: ast.GtE, ast.GtE: ast.LtE, ast.Eq: ast.Eq, ast.NotEq: ast.NotEq}
+
+
+def t_cmpflip(tree: ast.AST) -> int:
+    """`a < b` -> `b > a`, `a == b` -> `b == a` (single-operator comparisons; `x == <constant>` is left alone - nobody writes
+    `None == x` - but ordering tests against constants are flipped: `0 < x` is ordinary style)."""
+    count = [0]
+
+    class Flip(ast.NodeTransformer):
+        def visit_Compare(self, node):
+            self.generic_visit(node)
+            if len(node.ops) != 1 or type(node.ops[0]) not in _FLIP:
+                return node
+            right = node.comparators[0]
+            if isinstance(node.ops[0], (ast.Eq, ast.NotEq)) and (isinstance(right, ast.Constant) or isinstance(node.left, ast.Constant)):
+                return node
+            count[0] += 1
+            return ast.copy_location(ast.Compare(left=right, ops=[_FLIP[type(node.ops[0])]()], comparators=[node.left]), node)
+
+    Flip().visit(tree)
+    return count[0]
+
+
+def t_retlocal(tree: ast.AST) -> int:
+    """`return <expression>` -> `_rN = <expression>; return _rN` (names, constants and bare tuples of them are left alone)."""
+    count = [0]
+
+    def simple(e: ast.AST) -> bool:
+        return isinstance(e, (ast.Name, ast.Constant)) or (isinstance(e, ast.Tuple) and all(simple(x) for x in e.elts))
+
+    def bind(body):
+        out = []
+        for st in body:
+            for fld in ("body", "orelse", "finalbody"):
+                v = getattr(st, fld, None)
+                if isinstance(v, list) and v and isinstance(v[0], ast.stmt) and not isinstance(st, (ast.FunctionDef, ast.AsyncFunctionDef, ast.ClassDef)):
+                    setattr(st, fld, bind(v))
+            if isinstance(st, ast.Try):
+                for h in st.handlers:
+                    h.body = bind(h.body)
+            if isinstance(st, ast.With):
+                pass
+            if isinstance(st, ast.Return) and st.value is not None and not simple(st.value) and not any(
+                    isinstance(x, (ast.Await, ast.Yield, ast.YieldFrom, ast.NamedExpr)) for x in ast.walk(st.value)):
+                count[0] += 1
+                nm = f"_r{count[0]}"
+                out.append(ast.copy_location(ast.Assign(targets=[ast.Name(id=nm, ctx=ast.Store())], value=st.value), st))
+                st.value = ast.copy_location(ast.Name(id=nm, ctx=ast.Load()), st.value)
+            out.append(st)
+        return out
+
+    for n in ast.walk(tree):
+        if isinstance(n, (ast.FunctionDef, ast.AsyncFunctionDef)):
+            n.body = bind(n.body)
+    return count[0]
+
+
+def _blocks(tree: ast.AST, rewrite: Callable[[list], list]) -> None:
+    """Apply `rewrite` to every statement list of every function, innermost first."""
+    def go(body):
+        for st in body:
+            if isinstance(st, (ast.ClassDef,)):
+                continue
+            for fld in ("body", "orelse", "finalbody"):
+                v = getattr(st, fld, None)
+                if isinstance(v, list) and v and isinstance(v[0], ast.stmt):
+                    setattr(st, fld, go(v))
+            if isinstance(st, ast.Try):
+                for h in st.handlers:
+                    h.body = go(h.body)
+        return rewrite(body)
+
+    for n in ast.walk(tree):
+        if isinstance(n, (ast.FunctionDef, ast.AsyncFunctionDef)):
+            n.body = go(n.body)
+
+
+def t_noelse(tree: ast.AST) -> int:
+    """`if c: ...; return/raise/continue/break` + `else: B` -> the else arm moved after the if (no-else-return style)."""
+    count = [0]
+
+    def rw(body):
+        out = []
+        for st in body:
+            if isinstance(st, ast.If) and st.orelse and st.body and isinstance(st.body[-1], TERM):
+                rest, st.orelse = st.orelse, []
+                count[0] += 1
+                out.append(st)
+                out.extend(rest)
+            else:
+                out.append(st)
+        return out
+
+    _blocks(tree, rw)
+    return count[0]
+
+
+def t_augexpand(tree: ast.AST) -> int:
+    """`x += e` -> `x = x + e` for name / attribute targets (subscript targets would evaluate the index twice)."""
+    count = [0]
+
+    class Aug(ast.NodeTransformer):
+        def visit_AugAssign(self, node):
+            if isinstance(node.target, (ast.Name, ast.Attribute)) and isinstance(node.op, (ast.Add, ast.Sub)):
+                count[0] += 1
+                load = copy.deepcopy(node.target)
+                for x in ast.walk(load):
+                    if hasattr(x, "ctx"):
+                        x.ctx = ast.Load()
+                return ast.copy_location(ast.Assign(targets=[node.target], value=ast.BinOp(left=load, op=node.op, right=node.value)), node)
+            return node
+
+    Aug().visit(tree)
+    return count[0]
+
+
+def t_ternary(tree: ast.AST) -> int:
+    """`x = a if c else b` -> `if c: x = a` / `else: x = b` (single name / attribute target)."""
+    count = [0]
+
+    def rw(body):
+        out = []
+        for st in body:
+            if isinstance(st, ast.Assign) and len(st.targets) == 1 and isinstance(st.targets[0], (ast.Name, ast.Attribute)) \
+                    and isinstance(st.value, ast.IfExp):
+                count[0] += 1
+                t2 = copy.deepcopy(st.targets[0])
+                out.append(ast.copy_location(ast.If(
+                    test=st.value.test,
+                    body=[ast.copy_location(ast.Assign(targets=[st.targets[0]], value=st.value.body), st)],
+                    orelse=[ast.copy_location(ast.Assign(targets=[t2], value=st.value.orelse), st)]), st))
+            else:
+                out.append(st)
+        return out
+
+    _blocks(tree, rw)
+    return count[0]
+
+
+def t_earlyret(tree: ast.AST) -> int:
+    """a function body ending in `if c: A` (no else) -> `if not c: return` followed by A (functions that return nothing there)."""
+    count = [0]
+    for fn in ast.walk(tree):
+        if not isinstance(fn, (ast.FunctionDef, ast.AsyncFunctionDef)) or not fn.body:
+            continue
+        if any(isinstance(x, (ast.Yield, ast.YieldFrom)) for x in ast.walk(fn)):
+            continue
+        last = fn.body[-1]
+        if isinstance(last, ast.If) and not last.orelse and not any(isinstance(x, ast.NamedExpr) for x in ast.walk(last.test)):
+            count[0] += 1
+            guard = ast.copy_location(ast.If(test=ast.copy_location(ast.UnaryOp(op=ast.Not(), operand=last.test), last.test),
+                                             body=[ast.copy_location(ast.Return(value=None), last)], orelse=[]), last)
+            fn.body = fn.body[:-1] + [guard] + last.body
+    return count[0]
+
+
+def t_itemsloop(tree: ast.AST) -> int:
+    """`for k, v in d.items(): B` -> `for k in d: v = d[k]; B` (d a name or attribute chain, k and v plain names)."""
+    count = [0]
+    for lp in ast.walk(tree):
+        if isinstance(lp, ast.For) and isinstance(lp.target, ast.Tuple) and len(lp.target.elts) == 2 and all(
+                isinstance(e, ast.Name) for e in lp.target.elts) and isinstance(lp.iter, ast.Call) and not lp.iter.args \
+                and isinstance(lp.iter.func, ast.Attribute) and lp.iter.func.attr == "items" \
+                and all(isinstance(x, (ast.Name, ast.Attribute, ast.Load)) for x in ast.walk(lp.iter.func.value)):
+            d = lp.iter.func.value
+            k, v = lp.target.elts
+            count[0] += 1
+            lp.target = k
+            lp.iter = d
+            get = ast.Assign(targets=[v], value=ast.Subscript(value=copy.deepcopy(d), slice=ast.Name(id=k.id, ctx=ast.Load()), ctx=ast.Load()))
+            lp.body.insert(0, ast.copy_location(get, lp))
+    return count[0]
+
+
 TRANSFORMS: List[Tuple[str, str, Callable[[ast.AST], int]]] = [
     ("roundtrip", "every module replaced by ast.unparse(ast.parse(src)) (comments, layout, quoting gone)", t_roundtrip),
     ("rename", "every purely local variable of every function renamed", t_rename),
@@ -221,6 +395,13 @@ TRANSFORMS: List[Tuple[str, str, Callable[[ast.AST], int]]] = [
     ("guardelse", "every guard clause followed by more statements turned into if/else", t_guardelse),
     ("condlocal", "every branch condition bound to a fresh local before it is tested", t_condlocal),
     ("inline", "every single-use local inlined into the next statement", t_inline),
+    ("cmpflip", "operands of every ordering comparison (and of ==/!= between non-constants) swapped, operator mirrored", t_cmpflip),
+    ("retlocal", "every `return <expression>` turned into `_r = <expression>; return _r`", t_retlocal),
+    ("noelse", "every `else:` after an arm that ends in return/raise/continue/break removed (no-else-return style)", t_noelse),
+    ("augexpand", "every `x += e` / `x -= e` on a name or attribute written as `x = x + e` / `x = x - e`", t_augexpand),
+    ("ternary", "every `x = a if c else b` turned into an if/else statement", t_ternary),
+    ("earlyret", "every function body ending in `if c: A` turned into `if not c: return` + A", t_earlyret),
+    ("itemsloop", "every `for k, v in d.items():` turned into `for k in d: v = d[k]`", t_itemsloop),
 ]
 
 
@@ -273,7 +454,7 @@ def _one(args) -> Dict[str, Any]:
 def run_for(prop: str, repo: str) -> Dict[str, Any]:
     from concurrent.futures import ProcessPoolExecutor
     jobs = [(prop, repo, n) for n, _, _ in TRANSFORMS]
-    with ProcessPoolExecutor(max_workers=min(6, os.cpu_count() or 2)) as ex:
+    with ProcessPoolExecutor(max_workers=min(len(jobs), os.cpu_count() or 2)) as ex:
         rows = list(ex.map(_one, jobs))
     fails = [f"invariance under `{r['transformation']}` ({r['what']}): {r['outcome']} {r.get('first') or r.get('detail') or ''}"
              for r in rows if r["outcome"] != "same"]
